@@ -3,6 +3,7 @@ import GitSizer.Driver.Human
 import GitSizer.Driver.Parsers
 import GitSizer.Driver.Config
 import GitSizer.Driver.Refs
+import GitSizer.Driver.Graph
 /-! `gsmodel`: reads case lines (engine TAB id TAB input… TAB => TAB observed…) on stdin and
     prints one verdict line per case: id TAB verdict… -/
 open GitSizer.Driver
@@ -15,6 +16,7 @@ def engineOf (name : String) : Option Engine :=
   | "config" => some configEngine
   | "confige2e" => some configE2EEngine
   | "refs" => some refsEngine
+  | "graph" => some graphEngine
   | _ => none
 
 def splitCase (fields : List String) : List String × List String :=
